@@ -96,6 +96,8 @@ def run(tier, seed):
     th = tier == 'thorough'
     fams = [('placement', fam.fam_placement(thorough=th)), ('take_placement', fam.fam_take_placement(thorough=th)),
             ('orders', [c for c in fam.fam_orders(thorough=th) if common.cfg_features(c)['order_outside'] or c['id'] % 5 == 0])]
+    # assets with a coarser frequency of their own whose window ends inside the horizon, on and off a coarse boundary
+    fams.append(('coarse_window', fam.renumber([c for c in fam.fam_coarse(thorough=th) if c['T'] >= 6])))
     if th:
         fams.append(('placement_T4', fam.fam_placement(T=4)))
     for tag, cfgs in fams:
@@ -105,7 +107,7 @@ def run(tier, seed):
         neg = [c for k, c in enumerate(cfgs) if k % step == (seed % step)]
         pos = common.spec_to_code(chk, cfgs, make_real, relax=RELAX, neg_cfgs=neg, tag=tag)
         common.code_to_spec(chk, cfgs, make_real, tag=tag)
-        if tag == 'orders' or not pos:
+        if tag in ('orders', 'coarse_window') or not pos:
             continue
         # ---- pairs with / without the element
         base = [without(c) for c in cfgs]
